@@ -1,5 +1,7 @@
 mod entry;
 mod file;
+#[cfg(rivia_verif)]
+pub mod verif;
 mod vfs;
 
 pub use entry::*;
